@@ -245,6 +245,13 @@ def run(prop, seed, budget, ctx):
         failures += ff; fallback_n += fn
         ff, fn = run_inherited(rnd, budget, hist, distinct)
         failures += ff; fallback_n += fn
+        ff, fn = run_overridden(rnd, seed, budget, hist, distinct)
+        failures += ff; fallback_n += fn
+        import rec_conv
+        ff, fn, fd, fh = rec_conv.run_part("C04", seed, budget)
+        failures += ff; fallback_n += fn; distinct |= fd
+        for k_, v_ in fh.items(): hist[k_] += v_
+        for f in ff: hist["P:" + f["why"][0].split(":")[0]] += 1
     if prop == "C05":
         from discr import run_discr
         df, dn, dd, dh = run_discr(seed, budget, want=("roundtrip",))
@@ -403,6 +410,9 @@ def run_skip(rnd, seed, budget, hist, distinct):
         fs.sort(key=lambda f: f[1] is not None)
         lines = ["@dataclass", f"class SK{i}:"]
         for j, (tp, dflt, md, how) in enumerate(fs):
+            if md and rnd.random() < 0.3:
+                # the same metadata given inside Annotated[...] instead of field(metadata=...)
+                tp = f"Annotated[{tp}, {md[len('metadata='):]}]"; md = None
             if dflt is None: rhs = f" = field({md})" if md else ""
             elif dflt.startswith("FACTORY:"): rhs = f" = field(default_factory={dflt[8:]}" + (f", {md})" if md else ")")
             else: rhs = f" = field(default={dflt}" + (f", {md})" if md else ")")
@@ -439,6 +449,39 @@ def run_skip(rnd, seed, budget, hist, distinct):
                 failures.append({"kind": "P", "part": "skip", "features": ["skip"] + sorted({f[3] for f in fs}), "class_src": lines, "value": repr(v), "sopts": so,
                                  "serialized": repr(out), "expected_keys": want, "why": why, "k_ok": None})
                 hist["P:" + why[0].split(":")[0]] += 1
+    return failures, n
+
+
+def run_overridden(rnd, seed, budget, hist, distinct):
+    """C04, serialized methods included: a serialized method / property declared on a base class and overridden in a subclass is read on the value
+    (the override), whatever the type given to serialize"""
+    from apischema import serialize
+    from typing import List
+    src = ["from dataclasses import dataclass", "from typing import *", "from apischema import serialized", ""]
+    n_c = 12 * budget; kinds = []
+    for i in range(n_c):
+        kind = rnd.choice(["property", "method", "both"]); kinds.append(kind)
+        prop = "    @property\n" if kind in ("property", "both") else ""
+        src += ["@dataclass", f"class OB{i}:", "    side: int = 1",
+                "    @serialized", *( ["    @property"] if kind in ("property", "both") else []), "    def area(self) -> int:", "        return 0",
+                "    @serialized", *( ["    @property"] if kind == "property" else []), "    def kind(self) -> str:", "        return 'shape'", "",
+                "@dataclass", f"class OS{i}(OB{i}):",
+                *( ["    @property"] if kind in ("property", "both") else []), "    def area(self) -> int:", "        return self.side * self.side",
+                *( ["    @property"] if kind == "property" else []), "    def kind(self) -> str:", "        return 'square'", ""]
+    mod = build_module(src, f"C04over_{seed}")
+    failures, n = [], 0
+    for i in range(n_c):
+        B, S = getattr(mod, f"OB{i}"), getattr(mod, f"OS{i}")
+        v = S(3); want = {"side": 3, "area": 9, "kind": "square"}
+        for what, fn, exp in ((f"serialize(Sub, v)", lambda: serialize(S, v), want), (f"serialize(Base, v)", lambda: serialize(B, v), want), ("serialize(v)", lambda: serialize(v), want),
+                              ("serialize(List[Base], [v])", lambda: serialize(List[B], [v]), [want]), ("serialize(Base, Base(3))", lambda: serialize(B, B(3)), {"side": 3, "area": 0, "kind": "shape"})):
+            n += 1; hist["overridden-serialized:" + kinds[i]] += 1; distinct.add(case_hash("overridden", kinds[i], what))
+            try: got = fn()
+            except Exception as e: got = "EXC:" + type(e).__name__
+            if got != exp:
+                failures.append({"kind": "P", "part": "inherited", "features": ["serialized-override", kinds[i]], "hierarchy": f"Base with @serialized {kinds[i]} area / kind, Sub overrides both",
+                                 "own_serializers(inherited flag)": None, "call": what, "got": repr(got)[:200], "expected": repr(exp), "why": ["serialized-member-not-read-on-the-value"], "k_ok": None})
+                hist["P:serialized-member-not-read-on-the-value"] += 1; break
     return failures, n
 
 
@@ -577,6 +620,8 @@ def is_known(kid, case):
 
 def replay(prop, case, ctx):
     from apischema import deserialize, serialize
+    if case.get("part") == "recursive-conversions":
+        return {k: v for k, v in case.items() if k not in ("kind", "k_ok", "features")}
     if case.get("part") == "inherited":
         return {k: case[k] for k in ("hierarchy", "own_serializers(inherited flag)", "call", "got", "expected", "why")}
     if case.get("part") == "skip":
